@@ -2,6 +2,7 @@
 """Mutation self-test (DESIGN.md 2.7): applies deliberate property-breaking (and some property-preserving)
 changes to a scratch copy of /repo and reports which checks alarm.  Not a registered check."""
 import json, os, re, shutil, subprocess, sys, time
+os.environ['VF_EVIDENCE_DIR'] = '/tmp/vf_evidence_scratch'   # never overwrite the committed evidence from a changed tree
 VERIF = os.path.dirname(os.path.dirname(os.path.abspath(__file__)))
 
 ALLP = ['C%02d' % i for i in range(1, 21)]
